@@ -42,6 +42,28 @@ func c10Bases() []c10Base {
 			f := space.Close(&dsl.File{GettersOff: true, Messages: []*dsl.Message{root}})
 			return f, space.BaseConfig("Root")
 		}},
+		{"customs", func() (*dsl.File, *dsl.Config) {
+			// custom-type attributes (by proto option and by custom_types), singular, repeated, nested and
+			// embedded: the attribute the GenSchema hook is handed carries the configured flags and lists
+			part := &dsl.Message{Name: "Part", Fields: []*dsl.Field{
+				{Name: "Mark", Num: 1, T: dsl.Bool, CustomType: "BoolCustom", Comment: " Mark of the part"},
+				{Name: "Plain", Num: 2, T: dsl.String},
+				{Name: "Cfg", Num: 3, T: dsl.String},
+			}}
+			root := &dsl.Message{Name: "Root", Fields: []*dsl.Field{
+				{Name: "Name", Num: 1, T: dsl.String, Comment: " Name of the root"},
+				{Name: "Opt", Num: 2, T: dsl.Bool, CustomType: "BoolCustom", Comment: " Opt is a custom\n   boolean"},
+				{Name: "Many", Num: 3, T: dsl.Bool, CustomType: "BoolCustom", Card: dsl.Repeated},
+				{Name: "Token", Num: 4, T: dsl.String, Comment: " Token made custom by the configuration"},
+				{Name: "Part", Num: 5, T: dsl.Msg, Ref: "Part"},
+				{Name: "Parts", Num: 6, T: dsl.Msg, Ref: "Part", Card: dsl.Repeated},
+				{Name: "Limits", Num: 7, T: dsl.Msg, Ref: "Limits", Embed: true},
+			}}
+			f := space.Close(&dsl.File{GettersOff: true, Messages: []*dsl.Message{root, part}})
+			c := space.BaseConfig("Root")
+			c.CustomTypes = map[string]string{"Root.Token": "StrCustom", "Part.Cfg": "StrCustom"}
+			return f, c
+		}},
 	}
 }
 
